@@ -27,7 +27,7 @@ SHARDS = {"quick": 8, "thorough": 16}
 DEADLINE = {"quick": 50, "thorough": 420}
 REQUIRED = {"eval:int:expression": 500, "eval:float:expression": 500, "eval:missing-variable": 50, "eval:division-by-zero": 20,
             "eval:equation:true": 20, "eval:equation:false": 20, "evalop:int:Power": 100, "evalop:int:Factorial": 20, "evalop:float:Divide": 100,
-            "evalop:int:Sgn": 10, "evalop:float:Power": 50, "eval:int:bigresult": 20, "eval:same-dict-updated-in-place": 500, "eval:context-dict-subclass": 200}
+            "evalop:int:Sgn": 10, "evalop:float:Power": 50, "eval:int:bigresult": 20, "eval:same-dict-updated-in-place": 500, "eval:context-dict-subclass": 200, "eval:after-in-place-rewrite": 200, "eval:unary-operand-relinked-by-hand": 20}
 
 INT_VALUES = [0, 1, -1, 2, 3, -2, 5, 7, 10, -7, 12, True, False, 2 ** 31, 2 ** 32, 2 ** 63 - 1, 2 ** 63, -(2 ** 63) - 1, 10 ** 30, 2 ** 64 + 1, 99991, -65537, 46341, 3037000500]
 FLOAT_VALUES = [0.5, 2.5, -0.25, 1.5, 0.1, 3.14, 100.125, 1e-3, 12.75, -7.5, 1e6, 2.0, 0.0, 1e10, -0.0, 5e-324, 1.7976931348623157e308]
@@ -192,6 +192,35 @@ def run(rec, cfg):
                                 trees.append(r2)
             if len(trees) > 6:
                 trees = trees[:1] + rng.sample(trees[1:], 5)
+        if rng.random() < 0.3 and not D.too_big(sh) and D._small(root, 40):
+            # rules are in-place operations: the tree object is evaluated, rewritten in place (its
+            # nodes re-linked through set_left / set_right / rotate), and evaluated again
+            ctx0 = context_for(rng, names, rng.choice(["int", "small-int", "float"]))
+            evaluate(rec, root, dict(ctx0))
+
+            def again(cur, done):
+                evaluate(rec, cur, dict(ctx0))
+                rec.arm("eval:after-in-place-rewrite")
+                return True
+
+            try:
+                D.inplace_chain(rec, root, rules, rng, steps=rng.randint(1, 4), on_step=again)
+            except Exception:
+                pass
+        if rng.random() < 0.1:
+            # an operand re-linked by hand: the operand of a one-operand node replaced with set_left /
+            # set_right (the generic tree API), then evaluated
+            from mathy_core import expressions as _E
+
+            cp = root.clone()
+            un = [x for x in S.nodes_preorder(cp) if isinstance(x, _E.UnaryExpression) and x.get_child() is not None]
+            if un:
+                u = rng.choice(un)
+                new_operand = _E.ConstantExpression(rng.choice([2, 3, 2 ** 70, 0.5]))
+                (u.set_left if u.left is not None else u.set_right)(new_operand)
+                rec.arm("eval:unary-operand-relinked-by-hand")
+                for mode in ("int", "float"):
+                    evaluate(rec, cp, context_for(rng, names, mode))
         for t in trees:
             for mode in rng.sample(["int", "small-int", "float", "mixed", "small-int"], 3):
                 ctx = context_for(rng, names, mode)
